@@ -300,6 +300,52 @@ pub fn a_11_deep(cfg: &Cfg) -> Vec<Op> {
     v
 }
 
+/// screen layouts on a tall narrow screen: rows that are full and soft-wrapped with an
+/// emptied continuation, stretches of blank rows, content far down, coloured blanks -
+/// what the dump's row encoding (trailing-blank cut-off, REP, row skipping) has to get right
+pub fn a_layout(cfg: &Cfg) -> Vec<Op> {
+    let rows = cfg.rows as u32;
+    let over: String = "abcdefghijklmnopqrstuvwxyz".chars().take(cfg.cols + 1).collect();
+    let mut v = vec![
+        Op::text(&over),
+        // a full soft-wrapped row whose continuation was emptied again
+        c(Seq(vec![Text(over.clone()), Bs, El(None)])),
+        t("a"),
+        t("  "),
+        c(crlf()),
+        c(El(None)),
+        c(Ech(Some(2))),
+        c(sgr1(41)),
+        c(sgr1(0)),
+        c(Cup(Some(99), Some(99))),
+        c(Il(None)),
+    ];
+    for r in [1, 2, 3, rows / 2 + 1, rows - 1, rows] {
+        v.push(c(Cup(Some(r), Some(1))));
+    }
+    v
+}
+
+fn conts_layout(cfg: &Cfg) -> Vec<String> {
+    a_layout(cfg).into_iter().map(|o| o.text).collect()
+}
+
+fn layout_part<'a>(tier: Tier, sys: &'a SysA<'a>) -> Part<'a, SysA<'a>> {
+    Part {
+        name: "sparse-tall-screen",
+        sys,
+        cfgs: match tier {
+            Tier::Quick => cfgs(&[(3, 9)], &[None]),
+            Tier::Thorough => cfgs(&[(3, 9), (8, 10), (2, 12)], &[None]),
+        },
+        alphabet: &a_layout,
+        depth: tier.pick(5, 6),
+        seconds: tier.pick(20.0, 2400.0),
+        validated: true,
+        nontrivial: Some("states_round_tripped"),
+    }
+}
+
 fn conts_full(cfg: &Cfg) -> Vec<String> {
     a_11(cfg).into_iter().filter(|o| !o.is_resize()).map(|o| o.text).collect()
 }
@@ -428,14 +474,121 @@ fn pen_encodings(ctx: &Ctx, rep: &mut Report) {
     println!("part pen-encodings: {} comparisons", n);
 }
 
+/// "... including when the original input was cut in the middle of an escape sequence, whose
+/// remainder is then completed correctly on both": EVERY cut position of a set of long and
+/// awkward sequences (parameter counts around the table size, sub-parameters, markers,
+/// intermediates, control strings with headers, 8-bit forms). The part before the cut goes
+/// to the original, its dump to a fresh terminal, the remainder plus visible text to both.
+fn cut_sweep(ctx: &Ctx, rep: &mut Report) {
+    let mut seqs: Vec<String> = vec![];
+    for n in [1usize, 2, 16, 31, 32, 33, 34, 40] {
+        // n parameters, the last but one bold, the last underline: dropping, folding or
+        // shifting any of them changes the pen of the text that follows
+        let mut ps: Vec<String> = vec!["0".to_string(); n.saturating_sub(2)];
+        ps.push("1".into());
+        ps.push("4".into());
+        let ps = &ps[ps.len() - n.min(ps.len())..];
+        seqs.push(format!("\x1b[{}m", ps.join(";")));
+        seqs.push(format!("{}{}m", '\u{9b}', ps.join(";")));
+        seqs.push(format!("\x1bP{}q#1\x1b\\", ps.join(";")));
+    }
+    for s in [
+        "\x1b[38:2::10:20:30;48:5:7m",
+        "\x1b[38;2;10;20;30;48;5;7m",
+        "\x1b[2;3H",
+        "\x1b[?6;7l",
+        "\x1b[?1049h",
+        "\x1b[!p",
+        "\x1b[1 q",
+        "\x1b[12345;2H",
+        "\x1b[1:2:3:4:5:6:7;2H",
+        "\x1b(0",
+        "\x1b)0\x0e",
+        "\x1b#8",
+        "\x1b]0;title\x07",
+        "\x1b]8;;http://x\x1b\\",
+        "\u{9d}0;t\u{9c}",
+        "\x1bP1$r0m\x1b\\",
+        "\u{90}1;2|ab\u{9c}",
+        "\x1bXsos\x1b\\",
+        "\x1b_apc\u{9c}",
+        "\x1b^pm\x1b\\",
+        "\x1b[3;4r",
+        "\x1b[2b",
+    ] {
+        seqs.push(s.to_string());
+    }
+    let prefixes = ["", "ab\r\n\x1b[1;31mc", "\x1b[?1049hq"];
+    let (cols, rows) = (6usize, 3usize);
+    let mut n = 0u64;
+    let mut bad: Option<(String, usize, String, String)> = None;
+    'outer: for s in &seqs {
+        let chars: Vec<char> = s.chars().collect();
+        for k in 1..chars.len() {
+            for pre in prefixes {
+                let head: String = format!("{}{}", pre, chars[..k].iter().collect::<String>());
+                let tail: String = format!("{}Zq", chars[k..].iter().collect::<String>());
+                let r = crate::engine::guarded(|| {
+                    let mut a = build_vt(cols, rows, None);
+                    let _ = a.feed_str(&head);
+                    let d = a.dump();
+                    let mut b = build_vt(cols, rows, None);
+                    let _ = b.feed_str(&d);
+                    if obs(&a) != obs(&b) {
+                        return Some(format!("restored differs at once: original {:?} / restored {:?}; dump = {}", obs(&a).rows, obs(&b).rows, esc(&d)));
+                    }
+                    let _ = a.feed_str(&tail);
+                    let _ = b.feed_str(&tail);
+                    if obs(&a) != obs(&b) {
+                        return Some(format!(
+                            "after the remainder {}: original {:?} cursor {:?} / restored {:?} cursor {:?}; dump = {}",
+                            esc(&tail),
+                            obs(&a).rows,
+                            obs(&a).cursor,
+                            obs(&b).rows,
+                            obs(&b).cursor,
+                            esc(&d)
+                        ));
+                    }
+                    if a.dump() != b.dump() {
+                        return Some(format!("after the remainder {} the two dumps differ: {} / {}", esc(&tail), esc(&a.dump()), esc(&b.dump())));
+                    }
+                    None
+                });
+                n += 1;
+                let why = match r {
+                    Ok(None) => None,
+                    Ok(Some(w)) => Some(w),
+                    Err(p) => Some(format!("panic: {}", p)),
+                };
+                if let Some(w) = why {
+                    bad = Some((head, k, tail, w));
+                    break 'outer;
+                }
+            }
+        }
+    }
+    if let Some((head, _k, tail, w)) = bad {
+        emit_violation(ctx, rep, "C11", serde_json::json!({"part":"every-cut-position","input":esc(&head),"input_raw":head,"probe":esc(&tail),"probe_raw":tail,
+            "oracle":"dump-roundtrip-cut-sequence","observed":w}));
+    }
+    rep.evaluations += n;
+    rep.traces_validated += n;
+    rep.parts.push(serde_json::json!({"part":"every-cut-position","sequences":seqs.len(),"prefixes":prefixes.len(),"cuts":n}));
+    println!("part every-cut-position: {} sequences, {} cuts", seqs.len(), n);
+}
+
 pub fn run(ctx: &Ctx) -> Report {
     let mut rep = Report::new();
     pen_encodings(ctx, &mut rep);
+    cut_sweep(ctx, &mut rep);
     let sa = SysA { sys: make(&ctx.known), conts: &conts_full };
     let sb = SysA { sys: make(&ctx.known), conts: &conts_deep };
     let (full, deep) = parts!(ctx.tier, &sa, &sb);
     run_part(ctx, &mut rep, &full);
     run_part(ctx, &mut rep, &deep);
+    let sc = SysA { sys: make(&ctx.known), conts: &conts_layout };
+    run_part(ctx, &mut rep, &layout_part(ctx.tier, &sc));
     let hits: Vec<(String, u64, String)> = rep.known_hits.iter().map(|(k, (n, w))| (k.clone(), *n, w.clone())).collect();
     rep.known_hits.clear();
     for (id, n, w) in hits {
@@ -444,7 +597,7 @@ pub fn run(ctx: &Ctx) -> Report {
     let cmp: u64 = rep.counters.iter().filter(|(k, _)| k.ends_with(".comparisons")).map(|(_, v)| *v).sum();
     rep.evaluations += cmp;
     rep.traces_validated = cmp;
-    rep.rule = "BFS over op histories (texts, margins, every mode, save/restore, 47/1047/1049, edits, SGR, tabs, charsets, RIS/DECSTR, 14 truncated sequences, resizes); at EVERY distinct state the dump is fed to a fresh terminal of the same size and the two are compared immediately, after each probe of the battery, and after every feed op of the alphabet; a failing state is a KNOWN-FINDING only if black-box measurements put it in a listed class".into();
+    rep.rule = "BFS over op histories (texts, margins, every mode, save/restore, 47/1047/1049, edits, SGR, tabs, charsets, RIS/DECSTR, 14 truncated sequences, resizes); at EVERY distinct state the dump is fed to a fresh terminal of the same size and the two are compared immediately, after each probe of the battery, and after every feed op of the alphabet; a failing state is a KNOWN-FINDING only if black-box measurements put it in a listed class; plus every cut position of 46 long / awkward sequences (dump of the interrupted parser, remainder completed on both) and a layout alphabet on a 3x9 screen (wrapped rows with emptied continuation, blank stretches, far-down content)".into();
     rep.assumptions = vec![
         "equivalence is observational: size, cursor (col,row,visible), cursor-key mode, every cell's char + pen, wrap marks of the view".into(),
         "continuations are feeds only (scrollback is not dumped, so a later resize may differ)".into(),
@@ -467,11 +620,27 @@ pub fn replay(ctx: &Ctx, v: &Value) -> bool {
         println!("original {:?} / restored {:?}", obs(&vt).rows, obs(&b).rows);
         return obs(&vt) != obs(&b);
     }
+    if v["part"] == "every-cut-position" {
+        let (head, tail) = (v["input_raw"].as_str().unwrap(), v["probe_raw"].as_str().unwrap());
+        let mut a = build_vt(6, 3, None);
+        let _ = a.feed_str(head);
+        let d = a.dump();
+        let mut b = build_vt(6, 3, None);
+        let _ = b.feed_str(&d);
+        let _ = a.feed_str(tail);
+        let _ = b.feed_str(tail);
+        println!("original {:?} / restored {:?}", obs(&a).rows, obs(&b).rows);
+        return obs(&a) != obs(&b) || a.dump() != b.dump();
+    }
     let tier = if v["tier"] == "thorough" { Tier::Thorough } else { Tier::Quick };
     let sa = SysA { sys: make(&ctx.known), conts: &conts_full };
     let sb = SysA { sys: make(&ctx.known), conts: &conts_deep };
     let (full, deep) = parts!(tier, &sa, &sb);
     match v["part"].as_str().unwrap_or("") {
+        "sparse-tall-screen" => {
+            let sc = SysA { sys: make(&ctx.known), conts: &conts_layout };
+            replay_part(ctx, &layout_part(tier, &sc), v)
+        }
         "full-alphabet" => replay_part(ctx, &full, v),
         _ => replay_part(ctx, &deep, v),
     }
